@@ -190,8 +190,35 @@ def rule_f(repo, chk):
     chk.ob('C18.f', not loops, f, 'create_value itself climbs nothing (the class-skipping climb lives in FunctionValue.from_context only)')
 
 
+def rule_g(repo, chk):
+    chk.clause('C18.g', 'the dotted name of the analysed file (the prefix of every full_name in it) is computed against the search path WITHOUT the '
+                        'buffer\'s own ancestor directories: Script._get_module asks get_sys_path(add_parent_paths=False), so that namespace directories '
+                        'between the project root and the file stay part of the name (`services.billing.invoice`, not `billing.invoice`)')
+    f = repo.find('jedi.api', 'Script._get_module')
+    calls = [c for c in calls_in(f, 'transform_path_to_dotted')]
+    chk.floor('C18.g', len(calls), 1, 'transform_path_to_dotted in Script._get_module')
+    from ..lib import xnorm
+    for c in calls:
+        a0 = c.args[0] if c.args else None
+        src = None
+        if a0 is not None:
+            e = a0
+            if isinstance(e, ast.Name):
+                binds = [s_ for s_ in stmts_in(f, ast.Assign) if any(isinstance(t, ast.Name) and t.id == e.id for t in s_.targets)]
+                e = binds[0].value if len(binds) == 1 else e
+            src = e
+        ok = isinstance(src, ast.Call) and call_name(src) == 'get_sys_path' and isinstance(kwarg(src, 'add_parent_paths'), ast.Constant) \
+            and kwarg(src, 'add_parent_paths').value is False
+        chk.ob('C18.g', ok, c, 'the search path handed to transform_path_to_dotted is get_sys_path(add_parent_paths=False)', short(src) if src is not None else '')
+        ok = len(c.args) >= 2 and norm(c.args[1]) == 'self.path'
+        chk.ob('C18.g', ok, c, 'the path named is the script\'s own path')
+    g = repo.find('jedi.api.project', 'Project._get_sys_path')
+    d = [a for a, dflt in zip(reversed(g.args.args), reversed(g.args.defaults)) if a.arg == 'add_parent_paths' and isinstance(dflt, ast.Constant) and dflt.value is True]
+    chk.ob('C18.g', bool(d), g, 'Project._get_sys_path adds the ancestors by default (add_parent_paths=True), hence the explicit False above is needed')
+
+
 def describe(chk):
     chk.undecided('the position -> scope mapping over all files (e.g. async def bodies); __qualname__ equality for everything the engine reports')
 
 
-RULES = [('C18.a', rule_a), ('C18.b', rule_b), ('C18.c', rule_c), ('C18.d', rule_d), ('C18.e', rule_e), ('C18.f', rule_f)]
+RULES = [('C18.a', rule_a), ('C18.b', rule_b), ('C18.c', rule_c), ('C18.d', rule_d), ('C18.e', rule_e), ('C18.f', rule_f), ('C18.g', rule_g)]
